@@ -509,8 +509,11 @@ def scope_rule(run, f, rid):
 
 # ------------------------------------------------------------------ C19
 def no_panic_rule(run, f, rid):
-    run.rule(rid, "updating a per-descriptor time limit never asserts that the entry is new (only the lazy fill, dominated by its own miss, may)", floor=4, template="T10/T2")
+    run.rule(rid, "writing a per-descriptor time limit never asserts that the entry is new: not in setsockopt (the option may be set twice) and not in the lazy fill (two threads may both miss)", floor=4, template="T10/T2")
     LIM = ("syscall::unix::SEND_TIME_LIMIT", "syscall::unix::RECV_TIME_LIMIT")
+    from analysis.facts import ref_items as _ri
+    from rules.common import callers_map as _cm, inl as _inl
+    _refb = set((_ri(f.crate, f.config) or {}).get("bodies") or ())
     # functions that insert into a limit table, each taken as one unit (closures and helpers spliced in)
     roots = []
     for b in f.bodies:
@@ -518,49 +521,71 @@ def no_panic_rule(run, f, rid):
             continue
         du = None
         for (x, t) in b.calls():
-            if norm(t.get("callee") or "") == "dashmap::DashMap::insert":
+            if norm(t.get("callee") or "") in ("dashmap::DashMap::insert", "dashmap::DashMap::entry"):
                 du = du or DefUse(b)
+                rp = b.path.split("::{closure#")[0]
+                rb = [c for c in f.bodies if c.path == rp and c.kind != "Promoted"]
+                rb = rb[0] if rb else b
                 if static_of(b, du, t["args"][0]) in LIM:
-                    rp = b.path.split("::{closure#")[0]
-                    rb = [c for c in f.bodies if c.path == rp and c.kind != "Promoted"]
-                    rb = rb[0] if rb else b
                     if rb.path not in [r.path for r in roots]:
                         roots.append(rb)
+                elif _refb and rb.npath not in _refb:
+                    # a helper the reference tree does not have, writing a table it is handed as an argument: judged inside
+                    # the reference functions that call it (there the argument is bound to the static)
+                    for c_ in sorted(_cm(f).get(rb.npath, set())):
+                        for cb in f.by_npath.get(c_, []):
+                            if cb.kind != "Promoted" and cb.npath in _refb and cb.path not in [r.path for r in roots]:
+                                roots.append(cb)
     sites = 0
+    # a writer the reference tree does not have (the two lazy fills folded into one helper) stands for each reference
+    # function it is entered from: the instance count then does not depend on how the code is cut
+    expanded = []
     for root in roots:
-        b = inline(root, f)
-        units = [b]
-        if not any(norm(t.get("callee") or "") == "dashmap::DashMap::insert" for (_x, t) in b.calls()):
-            units = [c for c in [root] + f.closures_of(root) if c.kind != "Promoted"]   # a closure that could not be spliced
-        n = 0
-        for b in units:
-            du = DefUse(b)
-            cfg = Cfg(b)
-            for (x, t) in b.calls():
-                if norm(t.get("callee") or "") != "dashmap::DashMap::insert":
-                    continue
-                st = static_of(b, du, t["args"][0])
-                if st not in LIM:
-                    continue
-                sites += 1
-                # is the Option returned by insert inspected and does a panic hang on it?
-                uses = [(y, tt) for (y, tt) in b.calls() if norm(tt.get("callee") or "") in ("std::option::Option::is_none", "std::option::Option::is_some", "std::option::Option::unwrap", "std::option::Option::expect") and any(z == x for (z, _t) in backward(b, tt["args"][0], du, at=(y, "term"), through_calls="none").calls)]
-                swu = [y for y in cfg.reach if b.blocks[y]["term"]["k"] == "switch" and (switch_info(b, du, y) or {}).get("kind") == "discr" and switch_info(b, du, y)["place"]["l"] == t["dest"]["l"]]
-                panics = [y for (y, tt) in b.calls(include_cleanup=False) if norm(tt.get("callee") or "").startswith(("core::panicking::", "std::rt::panic", "std::panicking::"))]
-                guarded_panic = any(p in cfg.reachable(cfg.after(u[0])) for u in uses for p in panics) or any(p in cfg.reachable(cfg.after(y)) and not all(p in cfg.reachable({z}) for z in cfg.after(y)) for y in swu for p in panics)
-                # the lazy fill: this insert is dominated by the miss arm of a lookup in the same table
-                lazy = False
-                for (g, gt) in b.calls():
-                    if norm(gt.get("callee") or "") == "dashmap::DashMap::get" and static_of(b, du, gt["args"][0]) == st:
-                        va = variant_arms(b, cfg, du, gt["dest"]["l"], cfg.after(g))
-                        if va and va[0].get("None") is not None and cfg.dominates(va[0]["None"], x) and va[0].get("Some") != va[0]["None"]:
-                            lazy = True
-                key = "%s/insert%s" % (root.npath, "" if n == 0 else "#%d" % n)
-                n += 1
-                if guarded_panic and not lazy:
-                    run.fail(rid, key, b.loc(t["line"]), "%s asserts that no limit was cached for this descriptor yet: setting the option twice, or after any I/O filled the cache, panics inside an extern \"C\" frame and aborts the process" % root.npath.rsplit("::", 1)[1])
-                else:
-                    run.ok(rid, key, {"lazy_fill": lazy, "asserts_new": guarded_panic})
+        owners_ = sorted(c for c in _cm(f).get(root.npath, set()) if c in _refb) if (_refb and root.npath not in _refb) else []
+        expanded.append((root, owners_ or [root.npath]))
+    for root, names in expanded:
+      for name_ in names:
+          b = _inl(f, root)
+          units = [b]
+          if not any(norm(t.get("callee") or "") in ("dashmap::DashMap::insert", "dashmap::DashMap::entry") for (_x, t) in b.calls()):
+              units = [c for c in [root] + f.closures_of(root) if c.kind != "Promoted"]   # a closure that could not be spliced
+          n = 0
+          for b in units:
+              du = DefUse(b)
+              cfg = Cfg(b)
+              for (x, t) in b.calls():
+                  if norm(t.get("callee") or "") == "dashmap::DashMap::entry" and static_of(b, du, t["args"][0]) in LIM:
+                      # publish-if-absent / keep-what-is-there: cannot find the entry "unexpectedly present"
+                      sites += 1
+                      run.ok(rid, "%s/entry%s" % (name_, "" if n == 0 else "#%d" % n), "entry(fd).or_insert(..)")
+                      n += 1
+                      continue
+                  if norm(t.get("callee") or "") != "dashmap::DashMap::insert":
+                      continue
+                  st = static_of(b, du, t["args"][0])
+                  if st not in LIM:
+                      continue
+                  sites += 1
+                  # is the Option returned by insert inspected and does a panic hang on it?
+                  uses = [(y, tt) for (y, tt) in b.calls() if norm(tt.get("callee") or "") in ("std::option::Option::is_none", "std::option::Option::is_some", "std::option::Option::unwrap", "std::option::Option::expect") and any(z == x for (z, _t) in backward(b, tt["args"][0], du, at=(y, "term"), through_calls="none").calls)]
+                  swu = [y for y in cfg.reach if b.blocks[y]["term"]["k"] == "switch" and (switch_info(b, du, y) or {}).get("kind") == "discr" and switch_info(b, du, y)["place"]["l"] == t["dest"]["l"]]
+                  panics = [y for (y, tt) in b.calls(include_cleanup=False) if norm(tt.get("callee") or "").startswith(("core::panicking::", "std::rt::panic", "std::panicking::"))]
+                  guarded_panic = any(p in cfg.reachable(cfg.after(u[0])) for u in uses for p in panics) or any(p in cfg.reachable(cfg.after(y)) and not all(p in cfg.reachable({z}) for z in cfg.after(y)) for y in swu for p in panics)
+                  # the lazy fill: this insert is dominated by the miss arm of a lookup in the same table
+                  lazy = False
+                  for (g, gt) in b.calls():
+                      if norm(gt.get("callee") or "") == "dashmap::DashMap::get" and static_of(b, du, gt["args"][0]) == st:
+                          va = variant_arms(b, cfg, du, gt["dest"]["l"], cfg.after(g))
+                          if va and va[0].get("None") is not None and cfg.dominates(va[0]["None"], x) and va[0].get("Some") != va[0]["None"]:
+                              lazy = True
+                  key = "%s/insert%s" % (name_, "" if n == 0 else "#%d" % n)
+                  n += 1
+                  if guarded_panic and lazy:
+                      run.fail(rid, key, b.loc(t["line"]), "%s asserts that its lazy fill finds no entry: two threads doing their first I/O on one descriptor both miss the lookup, and the second insert panics inside an extern \"C\" frame and aborts the process" % root.npath.rsplit("::", 1)[1])
+                  elif guarded_panic:
+                      run.fail(rid, key, b.loc(t["line"]), "%s asserts that no limit was cached for this descriptor yet: setting the option twice, or after any I/O filled the cache, panics inside an extern \"C\" frame and aborts the process" % root.npath.rsplit("::", 1)[1])
+                  else:
+                      run.ok(rid, key, {"lazy_fill": lazy, "asserts_new": guarded_panic})
     return sites
 
 
